@@ -153,6 +153,9 @@ package core
 //@       matches_from(old(elems(handler)), off(handler), rangeindex + 1, len(handler), typeof(h), ival(h))
 //@   ensures [no_matching_handler_remains] forall(k, 0, len(pm.handlers),
 //@       !matches_from(old(elems(handler)), off(handler), 0, len(handler), typeof(pm.handlers[k]), ival(pm.handlers[k])))
+//@   ensures [only_the_named_handlers_are_removed] forall(j, 0, old(len(pm.handlers)),
+//@       old(pm.handlers[j]) != nil && forall(m, 0, len(handler), !same(old(pm.handlers[j]), old(handler[m]))) ==>
+//@       exists(k, 0, len(pm.handlers), same(pm.handlers[k], old(pm.handlers[j]))))
 //@   ensures [every_unmatched_handler_is_kept] len(pm.handlers) ==
 //@       kept_count(old(elems(pm.handlers)), old(off(pm.handlers)), old(len(pm.handlers)), old(elems(handler)), off(handler), len(handler))
 //@   ensures [lock_released] ghost.held[addr(pm.RWMutex)] == 0
